@@ -68,6 +68,9 @@ try:
             except X.Inconclusive as e:
                 # a query that cannot be completed must not hide what the others found
                 out["status"], out["detail"] = "inconclusive", str(e)
+    elif group == "e3_k21_handle":
+        lib = X.Mir(os.path.join(os.path.dirname(mirf), "lib.mir"))
+        E2.k21_handle_glue(lib, rep, src)
     elif group == "e3_k20_attribution":
         lib = X.Mir(os.path.join(os.path.dirname(mirf), "lib.mir"))
         E3.k20_attribution(lib, rep, src)
